@@ -1007,7 +1007,7 @@ class Run:
             self.probe('apply_' + mode)
         # verdict
         pred = model.predict_apply(handle.shape, handle.ops, handle.caps, table, handle.exact)
-        complaint = model.judge_apply(pred, rname, fired, fault_fired, handle.shape, handle.caps)
+        complaint = model.judge_apply(pred, rname, fired, fault_fired, handle.shape, handle.caps, mode)
         if complaint:
             self.violate(fr, 'U', {'site': 'apply', 'h': handle.h, 'mode': mode, 'why': complaint, 'raised': exc_text(raised) if raised is not None else None})
         if caps_after is not None and caps_after != handle.caps:
